@@ -245,8 +245,8 @@ S('query-string-at-several-call-sites', qs_func_max, uses=('QS_FUNC',))
 LS_AGE = 'lambda p: p.age > x'
 def ls_select(v): x = v; return Person.select(LS_AGE)
 def ls_filter(v): x = v; return select(p for p in Person if p.nick is not None).filter(LS_AGE)
-S('query-string-at-several-call-sites', ls_select, 30, uses=('LS_AGE',))
-S('query-string-at-several-call-sites', ls_filter, 30, uses=('LS_AGE',))
+S('entity-select-lambda', ls_select, 30, uses=('LS_AGE',))
+S('chained-lambdas', ls_filter, 30, uses=('LS_AGE',))
 
 # -- chained filter / where / order_by with shared lambdas
 L_ADULT = lambda p: p.age >= 30
